@@ -553,7 +553,28 @@ fn type_transport(t: &MType, entry: Entry) -> Result<(), Violation> {
     }
 }
 
+/// After whatever the run did (including refused documents): a full-depth type and a small scheme must still
+/// round-trip on this very thread - a refusal must not leave anything behind.
+fn control_after(res: Result<(), Violation>) -> Result<(), Violation> {
+    res?;
+    let t = build_mtype(0x5555_5555, 32, 1);
+    let text = type_json_text(&t);
+    match catch_unwind(AssertUnwindSafe(|| serde_json::from_str::<Type>(&text))) {
+        Ok(Ok(ty)) if MType::from_type(ty) == t => {}
+        other => return Err(v("refusal-poisons-later-calls", "type", format!("after this run's documents a valid 32-layer type is no longer read back: {:?}", other.map(|r| r.map(|_| "a different type").map_err(|e| e.to_string())).map_err(|_| "panic")))),
+    }
+    let scheme_text = r#"{"a":{"type":{"Map":{"Array":"Ip"}},"optional":true}}"#;
+    match catch_unwind(AssertUnwindSafe(|| serde_json::from_str::<Scheme>(scheme_text))) {
+        Ok(Ok(s)) if s.field_count() == 1 => Ok(()),
+        _ => Err(v("refusal-poisons-later-calls", "scheme", "a small valid scheme is no longer accepted after this run's documents".to_string())),
+    }
+}
+
 fn run(ctx: &RunCtx) -> Result<(), Violation> {
+    control_after(run_inner(ctx))
+}
+
+fn run_inner(ctx: &RunCtx) -> Result<(), Violation> {
     crate::seams::reset(ctx.run);
     let scenario = choose((1 + FIXED + SWEEP_CHUNKS) as usize, "scenario") as u32;
     let simple: FieldList = vec![("a.b".into(), MType::Int, false), ("host".into(), MType::Bytes, true)];
